@@ -23,10 +23,14 @@ RAISED = []
 def evalf(p, y):
     fv = FunctionValue()
     try:
-        return float(p.Calculate(Point(np.array(y, dtype=np.double), []), fv).value)
+        v = float(p.Calculate(Point(np.array(y, dtype=np.double), []), fv).value)
     except Exception as ex:      # noqa: BLE001  (an evaluation inside the box must not raise: clause EvaluationRaises)
         RAISED.append(type(ex).__name__)
         return 0.0
+    if v != v or v in (float("inf"), float("-inf")):
+        RAISED.append("NonFinite")      # inf / nan where a value is promised: judged like a raising evaluation
+        return 0.0
+    return v
 
 
 def golden_points(dim, nf, k=50):
